@@ -362,6 +362,14 @@ func (fr *Frame) set(v ssa.Value, term string) {
 	s := ex.D.sortOf(v.Type())
 	hint := v.Name()
 	fr.vals[v] = Val{T: ex.define(hint, s, term), S: s, G: v.Type()}
+	if st, ok := v.Type().Underlying().(*types.Slice); ok {
+		ex.sliceElemAssume(fr.vals[v], st, fr.curReach)
+	}
+}
+
+// sliceElemAssume: the backing array of a non-nil slice of static type []E is an allocation of E elements.
+func (ex *Exec) sliceElemAssume(v Val, st *types.Slice, reach string) {
+	ex.assume(fmt.Sprintf("(=> (not (= (sarr %s) 0)) (= (aty (root (sarr %s))) %d))", v.T, v.T, ex.D.tagOf(st.Elem())), reach)
 }
 
 // typeAssume emits basic type invariants of a symbolic value.
@@ -376,6 +384,7 @@ func (ex *Exec) typeAssume(v Val, t types.Type, reach string, old bool) {
 		}
 	case *types.Slice:
 		ex.assume(fmt.Sprintf("(and (>= (slen %s) 0) (>= (soff %s) 0) (>= (scap %s) (slen %s)) (=> (= (sarr %s) 0) (= (slen %s) 0)))", v.T, v.T, v.T, v.T, v.T, v.T), reach)
+		ex.sliceElemAssume(v, u, reach)
 		if old {
 			ex.assume(fmt.Sprintf("(<= (root (sarr %s)) allocbase)", v.T), reach)
 		}
@@ -693,6 +702,9 @@ func (fr *Frame) instr(in ssa.Instruction) {
 			panic(engineErr("extract from unknown tuple " + x.Tuple.Name()))
 		}
 		fr.vals[x] = tv[x.Index]
+		if st, ok := x.Type().Underlying().(*types.Slice); ok {
+			fr.ex.sliceElemAssume(fr.vals[x], st, fr.curReach)
+		}
 	case *ssa.Call:
 		res := fr.call(x, &x.Call)
 		fr.bindResults(x, res)
@@ -801,6 +813,9 @@ func (fr *Frame) bindResults(v ssa.Value, res []Val) {
 	}
 	if len(res) == 1 {
 		fr.vals[v] = res[0]
+		if st, ok := v.Type().Underlying().(*types.Slice); ok {
+			fr.ex.sliceElemAssume(fr.vals[v], st, fr.curReach)
+		}
 	}
 }
 
